@@ -158,6 +158,12 @@ fn variants(r: &mut Rng, w: &W) -> Vec<(&'static str, &'static str, Vec<u8>)> {
     for c in gen::len_corruptions(w) {
         out.push((c.kind, c.field, c.bytes));
     }
+    // a sample of single-bit flips of the length fields
+    let flips = gen::len_bitflips(w);
+    for _ in 0..flips.len().min(4) {
+        let c = r.pick(&flips);
+        out.push((c.kind, c.field, c.bytes.clone()));
+    }
     for _ in 0..2 {
         out.push(("mutated", "", gen::mutate(r, &w.b)));
     }
@@ -425,7 +431,16 @@ pub fn run(ctx: &mut Ctx) {
             ops.push(super::c07::Op::rec(0x16, payload[prev..c].to_vec()));
             prev = c;
         }
-        ops.push(super::c07::Op::rec(0x16, payload[prev..].to_vec()));
+        // the completing fragment may carry the beginning of a further message (left as remainder)
+        let mut last = payload[prev..].to_vec();
+        if r.bool() {
+            let more = gen::hs(r, gen::TINY).to_bytes();
+            let cutm = r.usize(1, more.len().max(2) - 1).min(more.len());
+            last.extend_from_slice(&more[..cutm]);
+        }
+        ops.push(super::c07::Op::rec(0x16, last));
+        // afterwards: complete records of the SAME type must be served from the caller's record
+        ops.push(super::c07::Op::rec(0x16, refenc::msgs_payload(&gen::msg_list(r, gen::TINY, 0x16))));
         ops.push(super::c07::Op::rec(0x17, gen::opaque(r, 50)));
         if super::c07::run_history(ctx, "C06-provenance", &ops) {
             ctx.count("defrag.histories");
